@@ -9,6 +9,7 @@ import (
 	"reflect"
 	"strconv"
 	"strings"
+	"sync"
 	"testing"
 	"time"
 
@@ -809,6 +810,35 @@ func TestC24_ManyIdentities(t *testing.T) {
 			t.Fatalf("VERIF-SIG[C24-many-%s] after restart %d (keys so far %d, addresses so far %d), %d of %d heights differ, first: %s", sig, p+1, nKeys*(p+1)/parts, nAddrs*(p+1)/parts, bad, h-1, msg)
 		}
 	}
+	// first use after a restart from several goroutines at once (the API serves event queries
+	// concurrently): every caller must get the complete, correct batch, whoever triggers the reload
+	const rounds, readers = 10, 6
+	for round := 0; round < rounds; round++ {
+		fresh := events.NewEventsStore(db)
+		var wg sync.WaitGroup
+		errs := make([]string, readers)
+		for g := 0; g < readers; g++ {
+			wg.Add(1)
+			go func(g int) {
+				defer wg.Done()
+				for k := 0; k < 6; k++ {
+					hh := uint32(1 + (g*131+k*977+round*53)%int(h-1))
+					if w, ok := want[hh]; ok {
+						if sg, d := c24DiffBatch(fresh, hh, w); sg != "" && errs[g] == "" {
+							errs[g] = fmt.Sprintf("height %d: %s: %s", hh, sg, d)
+						}
+					}
+				}
+			}(g)
+		}
+		wg.Wait()
+		for g, e := range errs {
+			if e != "" {
+				t.Fatalf("VERIF-SIG[C24-concurrent-first-load] restart %d, reader %d of %d concurrent first readers: %s", round, g, readers, trunc(e, 600))
+			}
+		}
+	}
+	sim.S.LabelN("C24/many/concurrent-first-load-rounds", rounds)
 	sim.S.Case("TestC24_ManyIdentities", true, fmt.Sprintf("%d/%d", nKeys, nAddrs), func() interface{} {
 		return map[string]interface{}{"keys": nKeys, "addresses": nAddrs, "heights": h - 1, "restarts": parts}
 	})
